@@ -268,6 +268,16 @@ func CheckC16(e *Env) int {
 				os.Remove(filepath.Join(rootA, pkgRel, "wire_gen.go"))
 				record("module/file-list-"+on, e.Wire(filepath.Join(rootA, pkgRel), nil, append([]string{"gen"}, fl...)...), rootA)
 			}
+			// ... and named from the module root (relative paths) and by absolute paths
+			var relFiles, absFiles []string
+			for _, f := range files {
+				relFiles = append(relFiles, "./"+filepath.Join(pkgRel, f))
+				absFiles = append(absFiles, filepath.Join(rootA, pkgRel, f))
+			}
+			os.Remove(filepath.Join(rootA, pkgRel, "wire_gen.go"))
+			record("module/file-list-from-module-root", e.Wire(rootA, nil, append([]string{"gen"}, relFiles...)...), rootA)
+			os.Remove(filepath.Join(rootA, pkgRel, "wire_gen.go"))
+			record("module/file-list-absolute-paths", e.Wire(rootA, nil, append([]string{"gen"}, absFiles...)...), rootA)
 		}
 		// root B: deeper, different names, together with other packages
 		rootB := filepath.Join(e.Scratch, "c16", fmt.Sprintf("b%03d", i), "some where", "else-"+fmt.Sprint(i), "checkout.d")
